@@ -148,6 +148,11 @@ func (c *channel) enqueue(req request, responseChan chan<- response, streaming b
 	case <-c.parentCtx.Done():
 		c.routeResponse(req.msg.Metadata.MessageID, response{nid: c.node.ID(), err: fmt.Errorf("channel closed")})
 		return
+	case <-req.ctx.Done():
+		// the caller has given up while the send queue was full (e.g. the sender
+		// is stuck writing to a peer that does not read)
+		c.routeResponse(req.msg.Metadata.MessageID, response{nid: c.node.ID(), err: req.ctx.Err()})
+		return
 	case c.sendQ <- req:
 	}
 }
